@@ -116,7 +116,13 @@ pub fn eval(case: &J) -> Outcome {
     let rename: Vec<String> = case["rename"].as_array().unwrap().iter().map(|x| x.as_str().unwrap().to_string()).collect();
     let rel = if rename.is_empty() { base } else {
         let fields: Vec<String> = base.schema().iter().map(|f| f.name().to_string()).collect();
-        let r = guarded(|| -> Result<Relation, String> { let mut b = Relation::map(); for (i, f) in fields.iter().enumerate() { let n = rename.get(i).cloned().unwrap_or_else(|| f.clone()); b = b.with((n.as_str(), Expr::col(f.as_str()))); } b.input(base.clone()).try_build().map_err(|e: qrlew::relation::Error| e.to_string()) });
+        let r = guarded(|| -> Result<Relation, String> { let mut b = Relation::map(); for (i, f) in fields.iter().enumerate() { let n = rename.get(i).cloned().unwrap_or_else(|| f.clone()); b = b.with((n.as_str(), Expr::col(f.as_str()))); }
+            // expressions that only the builders can produce (the reader never yields a negative literal under a unary minus)
+            let extras: [(&str, Expr); 6] = [("neg_const", Expr::opposite(Expr::val(-3))), ("neg_float", Expr::multiply(Expr::opposite(Expr::val(-2.5)), Expr::val(2))), ("sub_neg", Expr::minus(Expr::val(1), Expr::val(-1))),
+                ("not_neg", Expr::not(Expr::gt(Expr::val(-1), Expr::val(-2)))), ("abs_neg", Expr::abs(Expr::val(-7))), ("neg_neg", Expr::opposite(Expr::opposite(Expr::val(-4))))];
+            let pickx = case["data_seed"].as_u64().unwrap_or(0) as usize;
+            for j in 0..2 { let (n, e) = &extras[(pickx + 3 * j) % extras.len()]; if !rename.iter().any(|r| r == n) { b = b.with((*n, e.clone())); } }
+            b.input(base.clone()).try_build().map_err(|e: qrlew::relation::Error| e.to_string()) });
         match r { Ok(Ok(r)) => { out.tag("renamed"); r } _ => { out.tag("trivial"); return out; } }
     };
     let shape = if rename.is_empty() { "plain" } else if rename.iter().any(|n| !n.chars().next().map(|c| c.is_alphabetic() || c == '_').unwrap_or(false)) { "awkward-names-leading-symbol" } else { "awkward-names" };
@@ -134,7 +140,9 @@ pub fn eval(case: &J) -> Outcome {
             Some(Ok(Ok(r2))) => {
                 let sig2 = schema_sig(&r2);
                 if sig.iter().map(|x| &x.0).collect::<Vec<_>>() != sig2.iter().map(|x| &x.0).collect::<Vec<_>>() { out.fail(&format!("C17/dialect/{d}/readback-names/{shape}"), format!("{sql}: columns {:?} come back from {d} as {:?} ({text})", sig.iter().map(|x| &x.0).collect::<Vec<_>>(), sig2.iter().map(|x| &x.0).collect::<Vec<_>>())); }
-                else if sig != sig2 { let dd = sig.iter().zip(sig2.iter()).find(|(a, b)| a != b).unwrap(); out.fail(&format!("C17/dialect/{d}/readback-types/{}", if crate::s_determ::same_modulo_type_structure(&rel, &r2) { "type-structure" } else { shape }), format!("{sql}: column `{}` has type {} but {} after {d} render + read", dd.0 .0, dd.0 .1, dd.1 .1)); }
+                else if sig != sig2 { let dd = sig.iter().zip(sig2.iter()).find(|(a, b)| a != b).unwrap();
+                    let boolnum = dd.0 .1.contains("bool") && !dd.1 .1.contains("bool");
+                    out.fail(&format!("C17/dialect/{d}/readback-types/{}", if crate::s_determ::same_modulo_type_structure(&rel, &r2) { "type-structure" } else if boolnum { "boolean-as-number" } else { shape }), format!("{sql}: column `{}` has type {} but {} after {d} render + read", dd.0 .0, dd.0 .1, dd.1 .1)); }
                 else { out.tag(&format!("ok={d}")); }
             }
         }
@@ -147,7 +155,11 @@ pub fn eval(case: &J) -> Outcome {
             let reference = match rdb.query(&sql) { Ok(r) => { out.tag("reference=original-text"); Ok(r) } Err(_) => rdb.run(&rel) };
             match (pdb.query(&text), reference) {
                 (Ok(_), Ok(_)) if sql.contains("random()") => { out.tag("sqlite-executed"); out.tag("uses-random"); }   // two executions differ by construction
-                (Ok(a), Ok(b)) => { let ord = case["ordered"].as_bool().unwrap_or(false); if rows_key(&a.1, ord) != rows_key(&b.1, ord) { out.fail(&format!("C17/dialect/sqlite/different-rows/{shape}"), format!("{sql}: {text} returns {:?}, reference {:?}", a.1.iter().take(4).collect::<Vec<_>>(), b.1.iter().take(4).collect::<Vec<_>>())); } else { out.tag("sqlite-executed"); } }
+                (Ok(a), Ok(b)) => { let ord = case["ordered"].as_bool().unwrap_or(false);
+                    // builder-made extra columns come after the query's own: compare those the reference has
+                    let width = b.1.first().map(|r| r.len()).unwrap_or(usize::MAX);
+                    let a = (a.0, a.1.into_iter().map(|r| r.into_iter().take(width).collect::<Vec<_>>()).collect::<Vec<_>>());
+                    if rows_key(&a.1, ord) != rows_key(&b.1, ord) { out.fail(&format!("C17/dialect/sqlite/different-rows/{shape}"), format!("{sql}: {text} returns {:?}, reference {:?}", a.1.iter().take(4).collect::<Vec<_>>(), b.1.iter().take(4).collect::<Vec<_>>())); } else { out.tag("sqlite-executed"); } }
                 (Err(e), _) => out.fail(&format!("C17/dialect/sqlite/not-executable/{}", if e.contains("duplicate WITH table name") { duplicate_cte_class(&text) } else { sqlite_feature(&text) }), format!("{sql}: rendered for SQLite as {text}: {e}")),
                 _ => {}
             }
